@@ -245,16 +245,18 @@ pub fn exercise_record(r: &AnyRecord<'_>) {
             let _ = format!("{} {}", x.cpu(), x.os());
         }
         AllRecordData::Svcb(x) => {
+            let _ = (x.priority(), x.is_alias(), x.is_service());
             exercise_svc_params(x.params());
             let _ = format!("{}", x.target());
         }
         AllRecordData::Https(x) => {
+            let _ = (x.priority(), x.is_alias(), x.is_service());
             exercise_svc_params(x.params());
             let _ = format!("{}", x.target());
         }
         AllRecordData::Ipseckey(x) => {
             let _ = format!("{:?} {:?} {:?}", x.gateway_type(), x.gateway(), x.algorithm());
-            let _ = x.key().len();
+            let _ = (x.key().len(), x.precedence(), x.gateway().rdlen(), x.gateway().is_correct_gateway_type(x.gateway_type()));
         }
         AllRecordData::Tsig(x) => {
             let _ = (x.mac_slice().len(), x.other().len(), x.other_time(), x.fudge(), x.original_id());
@@ -262,12 +264,46 @@ pub fn exercise_record(r: &AnyRecord<'_>) {
         }
         AllRecordData::Rrsig(x) => {
             let _ = format!("{} {:?}", x.signer_name(), x.type_covered());
+            let _ = (x.algorithm(), x.labels(), x.original_ttl(), x.expiration(), x.inception(), x.key_tag(), x.signature().len());
         }
         AllRecordData::Naptr(x) => {
             let _ = format!("{} {} {} {}", x.flags(), x.services(), x.regexp(), x.replacement());
+            let _ = (x.order(), x.preference());
         }
         AllRecordData::Caa(x) => {
-            let _ = format!("{:?}", x);
+            let _ = format!("{:?} {:?} {:?}", x.flags(), x.tag(), x.value());
+        }
+        AllRecordData::Dnskey(x) => {
+            let _ = (x.flags(), x.protocol(), x.algorithm(), x.public_key().len());
+            let _ = (x.is_revoked(), x.is_secure_entry_point(), x.is_zone_key(), x.key_tag());
+        }
+        AllRecordData::Cdnskey(x) => {
+            let _ = (x.flags(), x.protocol(), x.algorithm(), x.public_key().len());
+        }
+        AllRecordData::Ds(x) => {
+            let _ = (x.key_tag(), x.algorithm(), x.digest_type(), x.digest().len());
+        }
+        AllRecordData::Cds(x) => {
+            let _ = (x.key_tag(), x.algorithm(), x.digest_type(), x.digest().len());
+        }
+        AllRecordData::Tlsa(x) => {
+            let _ = (x.usage(), x.selector(), x.matching_type(), x.data().len());
+        }
+        AllRecordData::Sshfp(x) => {
+            let _ = (x.algorithm(), x.fingerprint_type(), x.fingerprint().len());
+        }
+        AllRecordData::Zonemd(x) => {
+            let _ = (x.serial(), x.scheme(), x.algorithm(), x.digest().len());
+        }
+        AllRecordData::Srv(x) => {
+            let _ = (x.priority(), x.weight(), x.port());
+            let _ = format!("{}", x.target());
+        }
+        AllRecordData::Openpgpkey(x) => {
+            let _ = x.key().len();
+        }
+        AllRecordData::Soa(x) => {
+            let _ = (x.serial(), x.refresh(), x.retry(), x.expire(), x.minimum());
         }
         _ => {}
     }
